@@ -80,10 +80,8 @@ def faultyFaults (plan : Plan) : List Bool :=
 def faultySends (plan : Plan) : List (Bytes × Bool) :=
   plan.fails.flatMap Attempt.sends ++ plan.ending.sends
 
-/-- `got` are some of the datagrams `pool`, each taken at most once, in any order — and NOT all of them -/
-def selects : List Bytes → List Bytes → Bool
-  | [], pool => !pool.isEmpty
-  | d :: r, pool => pool.contains d && selects r (pool.erase d)
+/-! `selects got pool` (`Spec/Faults.lean`): `got` are some of the datagrams `pool`, each taken at most once, in any order —
+and NOT all of them -/
 
 /-- a failed attempt: what arrived before the silence is an incomplete selection of the reply's parts -/
 def Attempt.wf (reply : List Bytes) : Attempt → Bool
